@@ -20,7 +20,7 @@ GRAMMAR = re.compile(r"^ClientConnected( ClientRequested( ServerConnecting( Conn
 
 async def population(out, rng, seed, P, oport, closed, uport, n, truth, io_name, hold_evt):
     """runs n mixed connections; fills truth[src_port] = dict(...)"""
-    kinds = ["ok", "ok", "ok", "ok-early", "ok-early", "deny", "refused", "abort-before", "abort-during", "abort-after", "garbage", "tls-fail", "udp", "ok-tls", "ok-socks4", "ok-rev"]
+    kinds = ["ok", "ok", "ok", "ok-early", "ok-early", "deny", "refused", "abort-before", "abort-during", "abort-after", "garbage", "tls-fail", "udp", "ok-tls", "ok-socks4", "ok-rev", "ok-upearly", "ok-upearly"]
 
     async def one(i):
         kind = rng.choice(kinds)
@@ -68,6 +68,35 @@ async def population(out, rng, seed, P, oport, closed, uport, n, truth, io_name,
                     except Exception:
                         pass
                     c.close()
+            elif kind == "ok-upearly":
+                # through a chained-proxy connector whose upstream sends its success reply and the first payload (a banner)
+                # in one segment: that payload reaches the client out of the handshake read buffer, and must be counted
+                n_c2s = rng.choice([1, 100, 5000])
+                n_banner = rng.choice([1, 35, 3000])
+                via = rng.choice(["hup", "sup"])
+                tport = {"hup": 1010, "sup": 1011}[via] + 2 * [1, 35, 3000].index(n_banner)
+                payload = keystream(seed, uid, "c2s", n_c2s)
+                if rng.random() < 0.5:
+                    c = await open_conn("127.0.0.1", P["http"])
+                    st, _ = await http_connect(c, "127.0.0.1", tport)
+                    rec.update(listener="http", ok=st == 200)
+                else:
+                    c = await open_conn("127.0.0.1", P["socks"])
+                    rep, _, _ = await socks5_connect(c, "127.0.0.1", tport)
+                    rec.update(listener="socks", ok=rep == 0)
+                rec.update(src=c.local[1], target="127.0.0.1:%d" % tport, connector=via, outcome="success")
+                truth[rec["src"]] = rec
+                banner = await c.read_exact(n_banner, timeout=15)
+                c.write(payload)
+                await c.drain()
+                got = await c.read_exact(n_c2s, timeout=15)
+                rec.update(c2s=n_c2s, s2c=len(banner) + len(got))
+                c.eof()
+                try:
+                    await c.read_all(timeout=5)
+                except Exception:
+                    pass
+                c.close()
             elif kind in ("deny", "refused"):
                 port = 1004 if kind == "deny" else closed
                 if rng.random() < 0.5:
@@ -157,6 +186,31 @@ async def main(args):
     utr, upr, uport = await udp_endpoint(lambda: UdpEcho())
     closed = free_port()
     wd = workdir("c16")
+
+    def banner_for(port):
+        return b"B" * [1, 35, 3000][((port - 1010) // 2) % 3]
+
+    async def fake_http_upstream(r, w, o, info):
+        head = await r.readuntil(b"\r\n\r\n")
+        port = int(head.split(b" ")[1].rsplit(b":", 1)[1])
+        w.write(b"HTTP/1.1 200 Connection established\r\n\r\n" + banner_for(port))  # reply and banner in ONE segment
+        await w.drain()
+        await echo_handler(r, w, o, info)
+
+    async def fake_socks_upstream(r, w, o, info):
+        g = await r.readexactly(2)
+        await r.readexactly(g[1])
+        w.write(b"\x05\x00")
+        await w.drain()
+        h = await r.readexactly(4)
+        alen = {1: 4, 4: 16}.get(h[3]) or (await r.readexactly(1))[0]
+        rest = await r.readexactly(alen + 2)
+        port = struct.unpack(">H", rest[-2:])[0]
+        w.write(b"\x05\x00\x00\x01\x00\x00\x00\x00\x00\x00" + banner_for(port))
+        await w.drain()
+        await echo_handler(r, w, o, info)
+    hup = await TcpOrigin(fake_http_upstream, host="127.0.0.1").start()
+    sup = await TcpOrigin(fake_socks_upstream, host="127.0.0.1").start()
     confs = [(1000, "splice", True), (3, "buffered", False), (0, "splice", True)]
     if args.thorough:
         confs += [(1000, "buffered", False), (3, "splice", True)]
@@ -168,11 +222,15 @@ async def main(args):
             {"name": "socks", "bind": "127.0.0.1:%d" % P["socks"]},
             {"name": "rev", "type": "reverse", "bind": "127.0.0.1:%d" % P["rev"], "target": "127.0.0.1:%d" % origin.port},
         ]
-        rules = [{"filter": "request.target.port == 1004", "target": "deny"}, {"target": "direct"}]
+        rules = [{"filter": "request.target.port == 1004", "target": "deny"},
+                 {"filter": "request.target.port _: [1010, 1012, 1014]", "target": "hup"},
+                 {"filter": "request.target.port _: [1011, 1013, 1015]", "target": "sup"}, {"target": "direct"}]
+        connectors = [{"name": "direct"}, {"name": "hup", "type": "http", "server": "127.0.0.1", "port": hup.port},
+                      {"name": "sup", "type": "socks", "server": "127.0.0.1", "port": sup.port}]
         logname = "access-%d-%s.log" % (hist, io_name)
         # a SOCKS UDP association is only retired by its idle timer (the proxy does not watch the control connection):
         # keep that timer short so that such sessions end within the run
-        cfg = base_cfg(listeners, [{"name": "direct"}], rules, metrics_port=P["api"], history=hist, io={"bufferSize": 8192, "useSplice": splice}, timeouts={"idle": 600, "udp": 1},
+        cfg = base_cfg(listeners, connectors, rules, metrics_port=P["api"], history=hist, io={"bufferSize": 8192, "useSplice": splice}, timeouts={"idle": 600, "udp": 1},
                        access_log={"path": logname, "format": "json"})
         A = Proxy(args.bin, cfg, "A%d%s" % (hist, io_name), wd)
         truth = {}
@@ -322,6 +380,8 @@ async def main(args):
     import shutil
     shutil.rmtree(wd, ignore_errors=True)
     await origin.stop()
+    await hup.stop()
+    await sup.stop()
     utr.close()
     out.finish()
 
